@@ -147,6 +147,14 @@ def main() -> int:
     p_ = ("truthy", ("sym", "p", "any"))
     bad += check("nested choice under the same condition", ite(p_, ite(p_, c(1), c(2)), c(3)) == ("ite", p_, c(1), c(3)))
     bad += check("length lower bound of a choice", L.length_lower_bound(("ite", p_, c(90), ("len", ("seq", "raw", (("L", "aabbccdd"), ("whole", ("sym", "q", "str"))))))) == 4)
+    # twin round 8: a table look-up with a default where all entries but one hold the default is a two-way choice
+    x_ = T.seq("s", (("txt", ("decode", (("hx", M, 312, 316),))),))
+    k0, k1 = T.seq("s", (("L", "00"),)), T.seq("s", (("L", "01"),))
+    on_, off_ = c("ON"), c("OFF")
+    tab = ite(("cmp", "in", x_, ("tuple", (k1, k0))), ("lookup", ((k1, on_), (k0, off_)), x_), on_)
+    bad += check("table with default collapses to a choice on one key", tab == ite(mkcmp("==", x_, k0), off_, on_))
+    tab3 = ite(("cmp", "in", x_, ("tuple", (k1, k0))), ("lookup", ((k1, c("A")), (k0, off_)), x_), on_)
+    bad += check("a table with two informative entries stays a table", tab3[0] == "ite" and tab3[2][0] == "lookup" and len(tab3[2][1]) == 2)
     print(f"engine selftest: {bad} failures")
     return 1 if bad else 0
 
